@@ -41,6 +41,7 @@ def corpus_from_cases(prop, cases, max_line=6000, max_files=600):
     step = max(1, len(ok) // max_files)
     for cid, line, meta in ok[::step]:
         l = re.sub(r" id=\d+ ", " id=0 ", line, 1)
+        l = l.replace(" fsdump=1", "")     # the state hand-over is two-stage; the search runs one line on both sides at once
         with open(os.path.join(d, "corpus", hashlib.sha1(l.encode()).hexdigest()[:16]), "w") as f:
             f.write(l)
         n += 1
